@@ -24,6 +24,10 @@ func SmartRedirectSlashes(next http.Handler) http.Handler {
 			var path string
 			if rctx.RoutePath != "" {
 				path = rctx.RoutePath
+			} else if r.URL.RawPath != "" {
+				// match on the escaped path like the router does so that an
+				// escaped slash in a path value is not taken for a separator
+				path = r.URL.RawPath
 			} else {
 				path = r.URL.Path
 			}
